@@ -213,19 +213,16 @@ def regsL (cells : List (Cell × Ty)) (vis : Name → Bool) : List Ann → List 
   | a :: as => regs cells vis a ++ regsL cells vis as
 end
 
-/-- smallest suffix n with `key#n` free or held by the same object (fixes/C17-multiuse.patch) -/
-def freeUniq (pend : List Pending) (key : Key) (cell : Cell) : Nat → Nat → Nat
-  | 0, n => n
-  | gas + 1, n =>
-    if pend.any (fun p => p.key == key && p.uniq == n && p.cell != cell) then freeUniq pend key cell gas (n + 1)
-    else n
-
-/-- `forward_refs.setdefault(key, (ref, constraints))` (rule.py:85-93). -/
+/-- `forward_refs.setdefault(key, (ref, constraints))` (rule.py:85-93).  After
+fixes/C17-multiuse.patch the key is made unique per ForwardRef *object*:
+`while key in forward_refs and forward_refs[key][0] is not annotation: n += 1; key = f"{base}#{n}"`.
+During a creation nothing is popped, so the keys `base, base#1, …` held by other objects are
+contiguous: the loop stops at the entry of the same object if there is one, otherwise at the number
+of entries that share the base key. -/
 def register (cfg : Cfg) (pend : List Pending) (p : Pending) : List Pending :=
   if cfg.uniqueKeys then
-    let n := freeUniq pend p.key p.cell pend.length 0
-    if pend.any (fun q => q.key == p.key && q.uniq == n) then pend      -- same object registered already
-    else pend ++ [{ p with uniq := n }]
+    if pend.any (fun q => q.key == p.key && q.cell == p.cell) then pend      -- same object registered already
+    else pend ++ [{ p with uniq := (pend.filter (fun q => q.key == p.key)).length }]
   else
     -- before the fix: the first object registered under a name wins, any other is dropped
     if pend.any (fun q => q.key == p.key) then pend else pend ++ [p]
@@ -234,18 +231,24 @@ def registerAll (cfg : Cfg) (pend : List Pending) : List Pending → List Pendin
   | [] => pend
   | p :: ps => registerAll cfg (register cfg pend p) ps
 
+/-- key of a postponed return annotation: the string itself (`__forward_arg__`), which for a lone
+name is the key the quoted leaves of that name use -/
+def retKey (c : Cell) : Ann → Key
+  | .name n => .bare n
+  | _ => .bare (1000 + c)
+
 /-- one field: `ParserField.generate` + `Rule.parse_annotation` (field.py:1134-1147,1306-1314;
 rule.py:1441-1543).  Returns the field type, the cells evaluated, the registrations. -/
 def mkField (cells : List (Cell × Ty)) (vis : Name → Bool) (isFunc : Bool) (f : Nat) :
     FieldAnn → Ty × List (Cell × Ty) × List Pending
   | .plain a =>
       (mkTy cells vis a, evals cells vis a,
-       (regs cells vis a).map fun (c, n) => ⟨.bare n, 0, c, [n], .data n⟩)
+       (regs cells vis a).map fun p => ⟨.bare p.2, 0, p.1, [p.2], .data p.2⟩)
   | .str c e =>
       -- a fresh ForwardRef: evaluate now (field.py:1140-1147) …
       if (names e).all vis then (direct e, [], [])
       -- … or keep it under "$attname" (return annotations: under the string itself, func.py:317)
-      else (.fref c, [], [⟨if isFunc && f == 1 then .bare (1000 + c) else .att f, 0, c, names e, direct e⟩])
+      else (.fref c, [], [⟨if isFunc && f == 1 then retKey c e else .att f, 0, c, names e, direct e⟩])
 
 structure Decl where
   fields  : List (Nat × FieldAnn)
@@ -254,13 +257,11 @@ structure Decl where
   isFunc  : Bool := false     -- @utype.parse function: field 0 = parameter, field 1 = return
   deriving Repr
 
-def mkFields (cells : List (Cell × Ty)) (vis : Name → Bool) (isFunc : Bool) :
-    List (Nat × FieldAnn) → List (Nat × Ty) × List (Cell × Ty) × List Pending
-  | [] => ([], [], [])
-  | (f, fa) :: rest =>
-    let (t, ev, rg) := mkField cells vis isFunc f fa
-    let (ts, evs, rgs) := mkFields cells vis isFunc rest
-    ((f, t) :: ts, ev ++ evs, rg ++ rgs)
+def mkFields (cells : List (Cell × Ty)) (vis : Name → Bool) (isFunc : Bool)
+    (fields : List (Nat × FieldAnn)) : List (Nat × Ty) × List (Cell × Ty) × List Pending :=
+  (fields.map fun p => (p.1, (mkField cells vis isFunc p.1 p.2).1),
+   fields.flatMap fun p => (mkField cells vis isFunc p.1 p.2).2.1,
+   fields.flatMap fun p => (mkField cells vis isFunc p.1 p.2).2.2)
 
 def visOf (s : State) (selfName : Option Name) : Name → Bool :=
   fun n => s.visible.contains n || selfName == some n
@@ -329,7 +330,7 @@ def resolveParser (cfg : Cfg) (s : State) (k : Name) : State × Bool :=
       if r.raised then
         ({ s with cells := r.cells, parsers := setP k { ps with pending := r.kept } s.parsers }, false)
       else
-        let fields := if r.resolved then ps.fields.map (fun (f, t) => (f, resolveTy cfg r.cells t)) else ps.fields
+        let fields := if r.resolved then ps.fields.map (fun p => (p.1, resolveTy cfg r.cells p.2)) else ps.fields
         -- ForwardRef objects of local classes are un-evaluated again (base.py:261-267)
         let cells := if ps.isLocal then r.cells.filter (fun p => !r.popped.contains p.1) else r.cells
         ({ s with cells := cells, parsers := setP k { ps with pending := r.kept, fields := fields } s.parsers }, true)
@@ -531,7 +532,7 @@ def lookupD (k : Name) : List (Name × Decl) → Option Decl
 
 /-- the declarations made so far, every reference read directly -/
 def envOf (defs : List (Name × Decl)) : Env :=
-  fun k => (lookupD k defs).map fun d => d.fields.map fun (f, fa) => (f, fa.direct)
+  fun k => (lookupD k defs).map fun d => d.fields.map fun p => (p.1, p.2.direct)
 
 def specRun (leaf : Val → Option Val) (fuel : Nat) : List (Name × Decl) → List Op → List Outcome
   | _, [] => []
